@@ -4,7 +4,7 @@ from harness.common import Case, hx, unhx, Fields, tx_to_line, line_to_tx, toks_
 from harness import gen as G
 from harness.props.c08 import param_validation  # noqa: curve arithmetic vs libsecp256k1
 
-KINDS = 'ms'
+KINDS = 'gms'
 RULE = ('(a) the normalisation step alone with a stub in place of python-ecdsa that returns chosen (r, s) per attempt: every class — s just '
         'below/above n/2, s with high bit set, n-s with 1..3 leading zero bytes, short r, high r forcing 1..3 grinding attempts — and random pairs; '
         '(b) real signing: sign_input / sign_segwit_input on generated transactions, keys across [1,n-1], six hash types, with a recording proxy '
@@ -57,6 +57,8 @@ def cases(ctx):
             return (f's:der_roundtrip {r.to_bytes(32, "big").hex()} {low.to_bytes(32, "big").hex()}', 'ok ' + sig[:-2]) \
                 if (sig == exp.hex() and int(used) == k) else ('s:echo wrong-normalisation', 'ok 1')
         yield Case('der_norm ' + ' '.join([str(len(atts))] + [hx(a) for a in atts]) + f' {ht}', 'ms', nontrivial=nt, tag='norm-' + kind, spec=spec)
+        # the same through the generated (translated) _sign_input, python-ecdsa replaced by the logged attempts and the Spec DER codec
+        yield Case('sign_norm ' + ' '.join([str(len(atts))] + [hx(a) for a in atts]) + f' {ht}', 'g', nontrivial=nt, tag='gen-norm-' + kind)
     # (b) real signing
     from bitcoinutils.keys import PrivateKey
     from bitcoinutils.script import Script
@@ -135,6 +137,11 @@ def impl(op, a, ctx):
     from bitcoinutils.keys import PrivateKey
     from bitcoinutils.script import Script
     F = Fields(a)
+    if op == 'sign_norm':
+        atts = F.list(F.bytes); ht = F.nat(); F.done()
+        k = PrivateKey(secret_exponent=1)
+        k.key = Stub(atts)
+        return 'ok ' + k._sign_input(bytes(32), ht)
     if op == 'der_norm':
         atts = F.list(F.bytes); ht = F.nat(); F.done()
         k = PrivateKey(secret_exponent=1)
